@@ -289,7 +289,11 @@ func (g *qgen) matrix(depth int, metric string) string {
 	if metric != "" {
 		sel = g.selectorOf(metric)
 	}
-	return sel + "[" + g.dur() + "]" + g.modifiers()
+	ext := ""
+	if g.r.Chance(0.1) {
+		ext = g.pick(" anchored", " smoothed") // extended range selectors (floats only; histograms give a user-facing error)
+	}
+	return sel + "[" + g.dur() + "]" + ext + g.modifiers()
 }
 
 func (g *qgen) scalar(depth int) string {
@@ -433,8 +437,13 @@ func (g *qgen) top(depth int) string {
 	switch x := g.r.Intn(20); {
 	case x == 0:
 		return g.scalar(depth)
-	case x == 1 && !g.rangeQ:
-		return g.matrix(depth-1, "") // a range vector is a legal instant query
+	case x <= 2 && !g.rangeQ:
+		m := g.matrix(depth-1, "") // a range vector is a legal instant query
+		if g.r.Chance(0.4) && !strings.Contains(m, ":") && !strings.Contains(m, "anchored") && !strings.Contains(m, "smoothed") {
+			// extended range selector on a top-level range vector (its own evaluation path)
+			m = strings.Replace(m, "]", "] "+g.pick("anchored", "smoothed"), 1)
+		}
+		return m
 	default:
 		return g.vector(depth)
 	}
